@@ -191,7 +191,10 @@ class Mie(ScatteringTheory):
         '''
         if (ensure_array(s.r) == 0).any():
             raise InvalidScatterer(s, "Radius is zero")
-        x_arr = ensure_array(medium_wavevec * ensure_array(s.r))
+        # (double precision whatever the type the radius was given in:
+        # the special functions return NaN for a float32 argument)
+        x_arr = np.asarray(ensure_array(medium_wavevec * ensure_array(s.r)),
+                           dtype=float)
         m_arr = ensure_array(ensure_array(s.n) / medium_index)
 
         # Check that the scatterer is in a range we can compute for
